@@ -199,7 +199,9 @@ class Constraints(object):
                                          k_genuine_vec[i],
                                          k_impostor_vec[i])
 
-    return triplets
+    # the triplets index the labeled points only: map them back to indices
+    # of the array given by the caller
+    return np.flatnonzero(known_labels_mask)[triplets]
 
   def _pairs(self, n_constraints, same_label=True, max_iter=10,
              random_state=np.random):
